@@ -201,7 +201,7 @@ def parse_cex(tlc_out):
 
 
 NO_QUANTUM = {'Ret', 'LXG', 'LSG', 'Exit', 'Grant'}
-RESTART = {('LCas', 'LLoad'), ('UpCas', 'UpLoad'), ('TCas', 'TLoad'), ('PCas', 'P2')}
+RESTART = {('LCas', 'LLoad'), ('UpCas', 'UpLoad'), ('TCas', 'TLoad'), ('PCas', 'P2'), ('P1', 'P1'), ('P1', 'P2')}
 
 
 def cex_to_program(cls, steps):
@@ -777,9 +777,10 @@ NODE0 = re.compile(r'^(-?\d+) \[label=.*style = filled\]')
 
 
 def walk_config(cls, tier):
+    """state graphs the walks are generated from: small enough that the paths cover every edge in the quick tier"""
     q = tier == 'quick'
     if cls == 'pess':
-        return ('w_t3o1' if q else 'w_t2o2', dict(MO='<- MOlearnt', Threads={1, 2, 3} if q else {1, 2}, MaxOps=1 if q else 2, WithHB=False), [])
+        return ('w_t2o2' if q else 'w_t3o1', dict(MO='<- MOlearnt', Threads={1, 2} if q else {1, 2, 3}, MaxOps=2 if q else 1, WithHB=False), [])
     if cls == 'opt':
         return ('w_t2o1' if q else 'w_t2o2', dict(MO='<- MOlearnt', VHi=1, VLo=3, Retry=1, SetVers='<- SV', WithOpt=True, Threads={1, 2},
                                                    MaxOps=1 if q else 2, WithHB=False), ['SV == {<<0, 0>>, <<0, 2>>}'])
@@ -817,59 +818,53 @@ def load_graph(dot):
 
 
 def cover_paths(adj, inits, max_paths, seed=0):
-    """paths from an initial state to a terminal state that together cover as many edges as the budget allows:
-    walk along uncovered edges; when none leaves the current state, take the shortest way to one (BFS)"""
+    """paths from the initial state to a terminal state that together cover as many edges as the budget allows:
+    every path goes (along the BFS tree) to a state with an uncovered outgoing edge, takes it, and then keeps
+    following uncovered edges (a random edge when none is left) until no action is enabled"""
     import random, collections
     rnd = random.Random(seed)
+    init = inits[0]
+    parent = {init: None}
+    order = [init]
+    dq = collections.deque([init])
+    while dq:
+        u = dq.popleft()
+        for k, (lab, v) in enumerate(adj[u]):
+            if v not in parent:
+                parent[v] = (u, k)
+                order.append(v)
+                dq.append(v)
+    total = sum(len(adj[u]) for u in order)
     covered = set()
-    total = sum(len(v) for v in adj.values())
+    pending = [(u, k) for u in order for k in range(len(adj[u]))]      # BFS order: shallow edges first
+    pos = 0
     paths = []
-    stale = 0
-    while len(paths) < max_paths and len(covered) < total and stale < 50:
-        cur = inits[0]
+    while len(paths) < max_paths and pos < len(pending):
+        while pos < len(pending) and pending[pos] in covered:
+            pos += 1
+        if pos >= len(pending):
+            break
+        u0, k0 = pending[pos]
+        chain = []
+        u = u0
+        while parent[u] is not None:
+            chain.append(parent[u])
+            u = parent[u][0]
+        chain.reverse()
         path = []
-        before = len(covered)
-        steps = 0
+        for (u, k) in chain + [(u0, k0)]:
+            covered.add((u, k))
+            path.append(adj[u][k][0])
+        cur = adj[u0][k0][1]
+        steps = len(path)
         while adj[cur] and steps < 400:
-            unc = [(k, e) for k, e in enumerate(adj[cur]) if (cur, k) not in covered]
-            if unc:
-                k, (lab, nx) = rnd.choice(unc)
-            else:
-                # BFS to the nearest state with an uncovered outgoing edge
-                prev = {cur: None}
-                dq = collections.deque([cur])
-                goal = None
-                while dq:
-                    u = dq.popleft()
-                    if any((u, k2) not in covered for k2 in range(len(adj[u]))) and u != cur:
-                        goal = u
-                        break
-                    for k2, (lab2, v) in enumerate(adj[u]):
-                        if v not in prev:
-                            prev[v] = (u, k2)
-                            dq.append(v)
-                if goal is None:
-                    k, (lab, nx) = rnd.choice(list(enumerate(adj[cur])))
-                else:
-                    chain = []
-                    u = goal
-                    while prev[u] is not None:
-                        chain.append(prev[u])
-                        u = prev[u][0]
-                    chain.reverse()
-                    for (u, k2) in chain[:-1] if False else chain:
-                        lab2, v = adj[u][k2]
-                        covered.add((u, k2))
-                        path.append(lab2)
-                        cur = v
-                        steps += 1
-                    continue
+            unc = [k for k in range(len(adj[cur])) if (cur, k) not in covered]
+            k = rnd.choice(unc) if unc else rnd.randrange(len(adj[cur]))
             covered.add((cur, k))
-            path.append(lab)
-            cur = nx
+            path.append(adj[cur][k][0])
+            cur = adj[cur][k][1]
             steps += 1
         paths.append(path)
-        stale = stale + 1 if len(covered) == before else 0
     return paths, len(covered), total
 
 
@@ -894,7 +889,7 @@ def model_walks(cls, tier, mo, seed=0):
         raise InfraError('state-graph dump of %s failed: %s' % (cls, r['out'][-1500:]))
     adj, inits = load_graph(dump + '.dot')
     os.unlink(dump + '.dot')
-    paths, ncov, total = cover_paths(adj, inits, 1500 if q else 40000, seed)
+    paths, ncov, total = cover_paths(adj, inits, 2500 if q else 40000, seed)
     progs = []
     intended = {}
     for k, path in enumerate(paths):
